@@ -123,8 +123,25 @@ func runC15(c *harness.Case) {
 	var follower *harness.Node
 	var fstop int32
 	var fwg sync.WaitGroup
+	// in every other round of the engine rotation the future leader reaches the engine through a connection of its own,
+	// whose timestamp oracle goes away right after the node's first look at the lock and stays away until the node has
+	// tried to take over (point reads, scans and commits go on working)
+	var sw *harness.Wrap
+	var fkv storage.KvStorage = eng.KV
+	var tkv storage.KvStorage = eng.KV
+	if !strings.HasSuffix(kind, "-restart") && (c.Index/len(c15Engines))%2 == 1 {
+		sw = harness.NewWrap(eng.KV)
+		if c.Index%3 == 0 {
+			// with a third node in the case the connection (and the outage) is the third node's: the outage then lasts
+			// across the whole term of the second leader, whose start revision lies above what the third node saw at
+			// its first look
+			tkv = sw
+		} else {
+			fkv = sw
+		}
+	}
 	if !strings.HasSuffix(kind, "-restart") && c.Index%2 == 0 {
-		follower = harness.NewNode(harness.NodeOpts{KV: eng.KV, SkipInit: true, Config: backend.Config{Identity: "node-b:2380"}})
+		follower = harness.NewNode(harness.NodeOpts{KV: fkv, SkipInit: true, Config: backend.Config{Identity: "node-b:2380"}})
 		for g := 0; g < 8; g++ {
 			fwg.Add(1)
 			go func(g int) {
@@ -159,10 +176,10 @@ func runC15(c *harness.Case) {
 	if !strings.HasSuffix(kind, "-restart") {
 		standby = follower
 		if standby == nil && c.Index%4 != 1 {
-			standby = harness.NewNode(harness.NodeOpts{KV: eng.KV, SkipInit: true, Config: backend.Config{Identity: "node-b:2380"}})
+			standby = harness.NewNode(harness.NodeOpts{KV: fkv, SkipInit: true, Config: backend.Config{Identity: "node-b:2380"}})
 		}
 		if c.Index%3 == 0 {
-			third = harness.NewNode(harness.NodeOpts{KV: eng.KV, SkipInit: true, Config: backend.Config{Identity: "node-c:2380"}})
+			third = harness.NewNode(harness.NodeOpts{KV: tkv, SkipInit: true, Config: backend.Config{Identity: "node-c:2380"}})
 			defer third.Retire()
 		}
 	}
@@ -170,6 +187,9 @@ func runC15(c *harness.Case) {
 		if n != nil {
 			_, _ = n.B.GetResourceLock().Get()
 			c.Stat("looks_at_the_lock_by_standing_by_nodes", 1)
+			if sw != nil && sw.OracleFault == nil && (n == third || (third == nil && n == standby)) {
+				sw.OracleFault = func() error { return errors.New("injected oracle outage") }
+			}
 		}
 	}
 	lookEvery, lookEvery3 := 1+r.Intn(15), 1+r.Intn(25)
@@ -317,6 +337,18 @@ func runC15(c *harness.Case) {
 		}
 	}
 	vb, err := elect(b, idB)
+	if sw != nil && b == standby && third == nil {
+		if err != nil && strings.Contains(err.Error(), "injected oracle outage") {
+			c.Stat("election_attempts_failed_by_a_long_oracle_outage", 1)
+		}
+		if err != nil {
+			// the outage ends; client-go tries again a retry period later
+			sw.OracleFault = nil
+			vb, err = elect(b, idB)
+		}
+		sw.OracleFault = nil
+		c.Stat("takeovers_by_a_node_whose_oracle_was_away_since_its_first_look", 1)
+	}
 	if err != nil && ow != nil && strings.Contains(err.Error(), "injected oracle outage") {
 		// the attempt failed on the outage, as it may; client-go tries again a retry period later
 		c.Stat("election_attempts_failed_by_an_oracle_outage", 1)
@@ -418,6 +450,15 @@ func runC15(c *harness.Case) {
 		b.WaitCommitted(dealtB, 30*time.Second)
 		b.Retire()
 		vc, err := elect(third, "node-c:2380")
+		if sw != nil {
+			if err != nil && strings.Contains(err.Error(), "injected oracle outage") {
+				c.Stat("election_attempts_failed_by_a_long_oracle_outage", 1)
+				sw.OracleFault = nil
+				vc, err = elect(third, "node-c:2380")
+			}
+			sw.OracleFault = nil
+			c.Stat("takeovers_by_a_node_whose_oracle_was_away_since_its_first_look", 1)
+		}
 		if err != nil {
 			c.Violatef("C15 new-leader-cannot-be-elected engine="+base+" hop=second", wit(), "third node could not take the lock: %v", err)
 			return
